@@ -3,6 +3,7 @@ import LeanHelix.Props.C11NewView
 import LeanHelix.Props.C03
 import LeanHelix.Props.C04
 import LeanHelix.Lemmas.TermClean
+import LeanHelix.Lemmas.TermOwn
 /-!
 # The network model, part 1: what the adversary can show to a correct node
 
